@@ -9,6 +9,7 @@
 
 static int g_thorough;
 static int g_lite;
+static int g_src_shift;   /* C06: the caller's payload buffer ends this many bytes before the guard page (its alignment varies) */
 static int g_plant;      /* self-test: the reference image is deliberately wrong in one byte */
 static int g_off = -1;      /* C15: >= 0 places every PDU at a 16-byte boundary + g_off (always with a trailing canary) */
 static int g_slice = 0, g_nslices = 1;
@@ -74,7 +75,7 @@ static void c06_case(int packed, int len, int idi)
     int tail = placement ? 64 : 0;
     uint8_t* msg = place_msg(&gA, total, &tail);
     uint8_t* pre = msg - 16;
-    uint8_t* src = gB.hi - len;                 /* payload source: exact extent */
+    uint8_t* src = gB.hi - len - g_src_shift;   /* payload source: exact extent when the shift is 0 */
     uint8_t fillb = fill ? 0xA5 : 0xFF;
     static uint8_t exp[16 + 24 + 2100 + 96];
     for (int i = 0; i < 16; i++) pre[i] = (uint8_t)(0x3C + i);
@@ -99,7 +100,7 @@ static void c06_case(int packed, int len, int idi)
     rset(em, fld(fmt, "fdf"), (uint64_t)variant);
     rset(em, fld(fmt, "can_identifier"), id);
     if (g_plant && len > 0) em[hdr] ^= 0x80;
-    SETCS("C06", 0, packed, len, idi, 0, 0, 0);
+    SETCS("C06", 0, packed, len, idi, g_src_shift, 0, 0);
     g_cnt.cases++; g_cnt.nontrivial++;
     hs_add(fnv(msg, (size_t)hdr, fnv(src, (size_t)len, (uint64_t)packed * 131 + (uint64_t)idi)));
     volatile uint64_t rc = 0;
@@ -151,6 +152,9 @@ static void suite_c06(void)
             if (g_lite && ((packed >> 4) & 3) > 1) break;
             if (len > 72 && (packed >> 4) != 0 && (len % 61) != 0 && !(g_thorough && ((packed >> 6) & 7) == 4)) continue;   /* long lengths: all of them for pattern 0/prior 0/fill 0 and (thorough) the initialised prior, a stride otherwise */
             for (int idi = 0; idi < C06_NIDS; idi++) {
+                /* short payloads from caller buffers of every alignment */
+                if (len <= 8 && idi < 2) for (g_src_shift = 1; g_src_shift < 4; g_src_shift++) c06_case(packed, len, idi);
+                g_src_shift = 0;
                 if (len > 72 && idi >= 8 && !(g_thorough && (idi & 7) == (len & 7))) { if (!g_thorough) break; else continue; }
                 if (g_lite && idi >= 8 && (idi & 7) != (len & 7)) continue;
                 c06_case(packed, len, idi);
@@ -273,6 +277,13 @@ static void c13_value(int h, uint64_t x)
         if (src_big == g_world_big) exp = x; else { exp = 0; for (int i = 0; i < n; i++) exp |= ((x >> (8 * i)) & 0xFF) << (8 * (n - 1 - i)); }
         if (r != exp) { snprintf(key, sizeof key, "%s value", BO_NAME[h]); violation("C13", key, cs, "x=0x%llx -> 0x%llx expected 0x%llx", (unsigned long long)x, (unsigned long long)r, (unsigned long long)exp); }
     }
+    /* a compiler that does not predefine __BYTE_ORDER__: on a little-endian host the helpers must still be the host's */
+    if (w_bo3 && !g_world_big) {
+        uint8_t t3[8] = {0}; volatile uint64_t r3 = 0;
+        TRY_CALL(r3 = w_bo3((uint64_t)h, x, t3), { r3 = ~r; });
+        g_cnt.transitions++;
+        if (r3 != r || memcmp(t3, img, (size_t)n)) { snprintf(key, sizeof key, "%s without predefined byte-order macros", BO_NAME[h]); violation("C13", key, cs, "x=0x%llx: compiled without __BYTE_ORDER__ gives 0x%llx, with it 0x%llx", (unsigned long long)x, (unsigned long long)r3, (unsigned long long)r); }
+    }
     /* mirror images: the helper set of the other host-order branch (w_bo2) is this set with Le/Be exchanged */
     {
         int mh = kind == 0 ? h : (kind == 1 || kind == 3) ? h + 3 : h - 3;
@@ -345,7 +356,7 @@ int main(int argc, char** argv)
         strncpy(buf, csarg, sizeof buf - 1); buf[sizeof buf - 1] = 0;
         char* tok = strtok(buf, ":"); strncpy(su, tok, 7); su[7] = 0;
         for (int k = 0; k < 8 && (tok = strtok(NULL, ":")); k++) p[k] = k == 6 ? (long long)strtoull(tok, NULL, 16) : atoll(tok);
-        if (!strcmp(su, "C06")) c06_case((int)p[1], (int)p[2], (int)p[3]);
+        if (!strcmp(su, "C06")) { g_src_shift = (int)p[4]; c06_case((int)p[1], (int)p[2], (int)p[3]); }
         else if (!strcmp(su, "C09")) { if (p[0] == 0) c09_case((int)p[1], (int)p[2], (int)p[3]); else { g_unit = 0; g_nslices = 1; suite_c09(); } }
         else if (!strcmp(su, "C13")) { g_world_big = (int)w_world_id(); c13_value((int)p[1], (uint64_t)p[6]); }
         else replay_ser2(su, p);
